@@ -1,7 +1,7 @@
 (* C05 property theorems.  Nothing but statements closed by `exact`, each followed by Print Assumptions.
    Representation: 0 is the field zero, i in [1,N] (N = q-1) is g^i; val/phi map a representation to the ring. *)
 From Coq Require Import ZArith List.
-From C05 Require Import Model Checker ProofsZech ProofsArr ProofsField ProofsProps.
+From C05 Require Import Model Checker ProofsZech ProofsArr ProofsField ProofsIrred ProofsProps.
 Local Open Scope Z_scope.
 
 Theorem C05_zech_macros_are_ring_operations : Zech_ops_stmt.       Proof. exact zech_ops. Qed.
@@ -19,3 +19,10 @@ Print Assumptions C05_dotprod_is_the_loop_sum.
 Theorem C05_array_forms_pre_decrement_loop_refuted : pre_decrement_loop_is_wrong.
 Proof. exact pre_decrement_loop_refuted. Qed.
 Print Assumptions C05_array_forms_pre_decrement_loop_refuted.
+(* the reported modulus f is irreducible of degree k over F_p (p prime) and the reported generator has order exactly p^k - 1
+   modulo f, whenever the verified checkers (C09 irreducible_b / brute_order, trial-division primality) accept (p,k,f,g);
+   fg_ok is evaluated (extracted) on the (f,g) every field of a run reports *)
+Theorem C05_modulus_irreducible_when_checked : Modulus_irreducible_stmt.     Proof. exact modulus_irreducible. Qed.
+Print Assumptions C05_modulus_irreducible_when_checked.
+Theorem C05_generator_primitive_when_checked : Generator_primitive_stmt.     Proof. exact generator_primitive. Qed.
+Print Assumptions C05_generator_primitive_when_checked.
